@@ -291,12 +291,35 @@ def gen_cases(rep):
                          (1 << 22) if plain else 0, -1, 0])
             out.append((line, dict(fmt=fmt, opts=opts.decode(), flt=flt.decode(), fcode=fcode, bpb=bpb, bilb=bilb, loc=loc,
                                    entries=es, model=plain, round=1)))
+        # directed: bodies beyond the writers' internal 64 KiB buffers (2:1 compressible and incompressible) under every
+        # option set; link targets of every '/' phase, so that wherever a writer cuts a long target into records
+        # one of them has its separator exactly there
+        for opts in spec.get("options", [b""]):
+            es = []
+            if REG in spec["types"] and not spec.get("nobody"):
+                nm = (lambda k: b"big%d" % k)
+                bodies = [bytes(r.choice(b"0123456789abcdef") for _ in range(140000)), bytes(r.randrange(256) for _ in range(70001))]
+                if spec.get("single"):
+                    bodies = [b"R" + bodies[0][1:]]
+                for k, body in enumerate(bodies):
+                    es.append(dict(mode=REG | 0o644, nlink=1, path=nm(k), uid=0, gid=0, mtime=(10**9 + k, 0), size=len(body), body=body,
+                                   chunks=r.choice([(), (4096,), (65536,), (100000, 1)])))
+            if LNK in spec["types"] and "symlink" in spec["fields"] and not spec.get("single"):
+                lm = min(spec.get("linkmax", 100), 200)
+                for ph in range(7):
+                    tgt = b"".join(b"/" if (j % 7 == ph and 0 < j < lm - 1) else b"abcdefghijklmnopqrstuvwxyz"[j % 26:j % 26 + 1] for j in range(lm))
+                    es.append(dict(mode=LNK | 0o777, nlink=1, path=b"ln%d" % ph, uid=0, gid=0, mtime=(10**9, 0), size=0, body=b"", chunks=(), sym=tgt))
+            if not es:
+                continue
+            o2 = opts if (opts or fmt != "iso9660") else b"iso9660:rockridge=strict"
+            line = vfmt([0, 1, fmt.encode(), o2, b"", 0, -1, [to_ent(d) for d in es], 0, -1, 0])
+            out.append((line, dict(fmt=fmt, opts=o2.decode(), flt="", fcode=0, bpb=0, bilb=-1, loc=1, entries=es, model=False, round=1)))
         # directed: every kind of sibling family (names the writer's duplicate resolver has to rename), in the root
         # and in a sub-directory, under every option set of the directory-oriented formats
         if spec["names"] == "tree":
             for kind in range(5):
                 for opts in spec.get("options", [b""]):
-                    fam = sibling_family(r, kind)
+                    fam = sorted(set(sibling_family(r, kind)))      # (the same pathname twice is not a round-trip question)
                     es = [dict(mode=DIR | 0o755, nlink=1, path=b"sub", uid=0, gid=0, mtime=(10**9, 0), size=0, body=b"", chunks=())]
                     for j, nm in enumerate(fam):
                         for pre in (b"", b"sub/"):
